@@ -211,8 +211,27 @@ def m1_cmdseq(ctx: Any, prog: Program) -> None:
     w = TokWire(mod, fold, {}, ignore=(), inline={'pad_string': mod.func('pad_string')})
     ok = 'header = file.read(len(SEQ_HEADER))' in src_p and 'file.write(SEQ_HEADER)' in src_w
     ctx.shape('C20.M1', ok, mod, wf, 'command sequence header constant written and compared', func='write', text='cmdseq header')
-    ok = "unpack('f', file.read(4))" in src_p and "file.write(pack('f', 0.2))" in src_w and 'if version < 0.2:\n        cmd_struct = ST_COMMAND_PRE_V2\n    else:\n        cmd_struct = ST_COMMAND' in src_p
-    ctx.shape('C20.M1', ok, mod, wf, 'the version written (0.2) selects ST_COMMAND in the reader (float32(0.2) >= 0.2)', func='write', text='cmdseq version selects struct')
+    import struct as _struct
+    wver = [c.args[1].value for c in ast.walk(wf) if isinstance(c, ast.Call) and dotted(c.func) == 'pack' and len(c.args) == 2 and isinstance(c.args[0], ast.Constant) and c.args[0].value == 'f' and isinstance(c.args[1], ast.Constant)]
+    sel: List[Tuple[ast.AST, ast.AST, ast.AST]] = []          # (test, value if true, value if false)
+    for n in ast.walk(pf):
+        if isinstance(n, ast.If) and len(n.body) == 1 and len(n.orelse) == 1 and all(isinstance(b, ast.Assign) and dotted(b.targets[0]) == 'cmd_struct' for b in (n.body[0], n.orelse[0])):
+            sel.append((n.test, n.body[0].value, n.orelse[0].value))
+        if isinstance(n, ast.Assign) and dotted(n.targets[0]) == 'cmd_struct' and isinstance(n.value, ast.IfExp):
+            sel.append((n.value.test, n.value.body, n.value.orelse))
+    if len(wver) != 1 or len(sel) != 1 or not (isinstance(sel[0][0], ast.Compare) and dotted(sel[0][0].left) == 'version' and isinstance(sel[0][0].comparators[0], ast.Constant)):
+        ctx.shape('C20.M1', False, mod, wf, 'version constant / struct selection not recognised', func='write', text='cmdseq version selects struct')
+    else:
+        stored = _struct.unpack('f', _struct.pack('f', wver[0]))[0]
+        test, vt, vf = sel[0]
+        op, c_ = test.ops[0], test.comparators[0].value
+        res = {ast.Lt: stored < c_, ast.LtE: stored <= c_, ast.Gt: stored > c_, ast.GtE: stored >= c_}.get(type(op))
+        if res is None:
+            ctx.shape('C20.M1', False, mod, test, 'version comparison operator not recognised', func='parse', text='cmdseq version selects struct')
+        else:
+            chosen = dotted(vt if res else vf)
+            ctx.check('C20.M1', chosen == 'ST_COMMAND', mod, test, f'write() stores version {wver[0]} (float32 {stored!r}) and packs ST_COMMAND; parse() evaluates `{ast.unparse(test)}` = {res} and unpacks with {chosen}', func='parse',
+                      text='cmdseq version selects struct')
     ok = "unpack('I', file.read(4))" in src_p and "file.write(pack('I', len(sequences)))" in src_w and "file.write(pack('I', len(commands)))" in src_w and 'strip_cstring(file.read(128))' in src_p and 'pad_string(name, 128)' in src_w
     ctx.shape('C20.M1', ok, mod, wf, 'sequence count, 128-byte name, command count', func='write', text='cmdseq sequence header')
     ok = 'ST_COMMAND.pack(' in src_w and 'cmd_struct.unpack(file.read(cmd_struct.size))' in src_p
@@ -236,6 +255,10 @@ def m1_cmdseq(ctx: Any, prog: Program) -> None:
     arg_field: List[Tuple[str, ast.AST]] = [(fields[i], a) for i, a in enumerate(ctor[0].args)] + [(k.arg, k.value) for k in ctor[0].keywords if k.arg]
     local_src: Dict[str, Set[str]] = {}
     for n in ast.walk(cp):
+        if isinstance(n, (ast.Assign, ast.AnnAssign)) and getattr(n, 'value', None) is not None:
+            tg = n.targets[0] if isinstance(n, ast.Assign) else n.target
+            if isinstance(tg, ast.Name):
+                local_src.setdefault(tg.id, set()).update({x.id for x in ast.walk(n.value) if isinstance(x, ast.Name)})
         if isinstance(n, ast.If):
             test_names = {x.id for x in ast.walk(n.test) if isinstance(x, ast.Name)}
             for s in ast.walk(n):
